@@ -39,6 +39,9 @@ type profile struct {
 	// mixedDepth: half of the worlds route instance names under "a"
 	// through one invocation key extractor less.
 	mixedDepth bool
+	// oddClasses: half of the worlds let workers of predeclared platform
+	// queues announce size classes of their own choosing.
+	oddClasses bool
 }
 
 func drawConfig(rt *rapid.T, p *profile) worldConfig {
@@ -51,6 +54,25 @@ func drawConfig(rt *rapid.T, p *profile) worldConfig {
 	}
 	if p.routers != nil {
 		cfg.Routers = p.routers(rt)
+	}
+	if p.oddClasses && rapid.Bool().Draw(rt, "oddClasses") {
+		for i := 0; i < cfg.NWorkers; i++ {
+			q := cfg.Queues[i%len(cfg.Queues)]
+			sc := q.SizeClasses[(i/len(cfg.Queues))%len(q.SizeClasses)]
+			if q.Predeclared {
+				max := q.SizeClasses[len(q.SizeClasses)-1]
+				switch rapid.IntRange(0, 9).Draw(rt, "workerClassKind") {
+				case 0, 1, 2:
+					// A class of its own below the maximum (or a predeclared one).
+					sc = uint32(rapid.IntRange(1, int(max)).Draw(rt, "workerClass"))
+				case 3:
+					sc = max + uint32(rapid.IntRange(1, 3).Draw(rt, "aboveMax"))
+				case 4:
+					sc = 0
+				}
+			}
+			cfg.WorkerClasses = append(cfg.WorkerClasses, sc)
+		}
 	}
 	if p.mixedDepth && cfg.InvDepth >= 1 {
 		cfg.MixedDepth = rapid.Bool().Draw(rt, "mixedDepth")
